@@ -102,6 +102,17 @@ Theorem C11_frame_elem : forall st limit n idx v, VInv st -> sigil_ok n ->
 Proof. exact let_elem_frame. Qed.
 Print Assumptions C11_frame_elem.
 
+(* SWAP a, b: b receives the bytes a holds AFTER both operands have been located.  Locating b may dimension
+   an array (and, in the implementation, run the string collector, which rewrites string descriptors in
+   place), so the bytes of a must be read afterwards - a copy taken before would be stale (seed C11e) *)
+Theorem C11_swap_right : forall st limit n1 i1 n2 i2 st', VInv st -> sigil_ok n1 -> sigil_ok n2 ->
+  swap_ st limit n1 i1 n2 i2 = (st', Ok tt) ->
+  exists st1 st2 left right lb,
+    view_place st limit n1 i1 false = (st1, Ok left) /\ view_place st1 limit n2 i2 true = (st2, Ok right) /\
+    read_place st2 left = Ok lb /\ read_place st' right = Ok lb.
+Proof. exact swap_right_gets_left. Qed.
+Print Assumptions C11_swap_right.
+
 (* non-vacuity: the D6 witness in the model of the fixed code: DIM A%(3):DIM B%(3):B%(0)=&H4321 *)
 Example C11_nonvacuous :
   let A := [65; 37] in let B := [66; 37] in
